@@ -27,11 +27,12 @@ import tempfile
 from datetime import datetime, timedelta, timezone
 
 from . import common
+from . import edgevals as ev
 from . import floatcases as fc
 from . import store_hist as sh
 from . import tieb_stores
 from .common import Check
-from .evutil import EPOCH, US
+from .evutil import EPOCH, US, SynthZone
 
 RULE = ("deterministic boundary corpus: instants at and +-1us/+-1ms around 1970-01-01, 10^15 us, 2^31 s / 2038-01-19, "
         "2^51 us (2041-05-10), 2100-01-01, year / leap-day / month / DST-switch boundaries, every millisecond "
@@ -80,7 +81,7 @@ DURS = ([0, 1, 2, 999, 1000, 1001, 999_999, 1_000_000, DAY - 1, DAY, DAY + 1, 2 
         + [10 ** k + j for k in range(1, 13) for j in (-1, 0, 1)])
 
 STRINGS = ["", "a", "café", "日本語", "\U0001f600", '"', "'", "\\", "\\n", "a\"b\\c", "\n\t\r", "\u0000",
-           "  ", "\ud800", "</script>", "{\"k\": 1}", " " * 3, "x" * 300, "null", "NaN"]
+           "  ", "\ud800", "</script>", "{\"k\": 1}", " " * 3, "x" * 300, "null", "NaN"] + list(ev.EDGE_STRINGS)
 SCALARS = [None, True, False, 0, 1, -1, 2 ** 31, 2 ** 53 + 1, -2 ** 63, 10 ** 30, 0.0, -0.0, 1e-7, 1e22, 1e-320,
            1.7976931348623157e308, 0.1, 1 / 3, 2.5, -1.5e-10, 1e16, 123456789.123456789] + STRINGS
 
@@ -102,6 +103,13 @@ DATA_CORPUS = [
     deep(6), deep(40),
     {"k": {"n": 1}},
 ]
+# round 5: text with lone surrogates (high alone, low alone; never a high directly followed by a low - outside the
+# domain, notes/agents/JSON.md), astral code points, NUL, U+2028 as values and keys; and the same kinds of values built
+# from dict / list / str / int SUBCLASSES at every depth (harness/edgevals.py).  All of them round-trip on the three back
+# ends of the unchanged tree (/tmp/fix6-data/probe_roundtrip.py; notes/agents/C01.md "Round 5").
+N_PLAIN_CORPUS = len(DATA_CORPUS)
+DATA_CORPUS += [copy.deepcopy(d) for d in ev.EDGE_DATA] + [v for _, v in ev.dressed_corpus()]
+DATA_CORPUS += [ev.dress(DATA_CORPUS[k], st) for k, st in ((4, "mixed"), (5, "listsub"), (9, "all"), (10, "scalars"), (11, "odict"))]
 
 
 def rand_json(rng, depth):
@@ -117,8 +125,11 @@ def rand_json(rng, depth):
 def rand_data(rng):
     if rng.random() < 0.35:
         return copy.deepcopy(rng.choice(DATA_CORPUS))
-    return {rng.choice(STRINGS[:14] + ["k%d" % rng.randrange(5)]): rand_json(rng, rng.randrange(0, 5))
-            for _ in range(rng.randrange(0, 4))}
+    d = {rng.choice(STRINGS[:14] + ["k%d" % rng.randrange(5)]): rand_json(rng, rng.randrange(0, 5))
+         for _ in range(rng.randrange(0, 4))}
+    if rng.random() < 0.25:         # the same value built from dict / list / str / int subclasses
+        d = ev.dress(d, rng.choice(ev.STYLES))
+    return d
 
 
 def clip(t):
@@ -134,7 +145,34 @@ def rand_spec(rng):
     else:
         t = rng.randrange(0, Y2100 // 1000 + 1) * 1000
     d = rng.choice(DURS) if rng.random() < 0.6 else rng.randrange(0, 30 * DAY + 1)
-    return {"t": t, "off": rng.choice(OFFSETS + [rng.randrange(-720, 841)]), "d": d, "x": rand_data(rng)}
+    s = {"t": t, "off": rng.choice(OFFSETS + [rng.randrange(-720, 841)]), "d": d, "x": rand_data(rng)}
+    if rng.random() < 0.15 and t >= 2 * DAY:
+        s = zoned(s, rng.choice(ZONE_KINDS))
+    return s
+
+
+# Time zones that are not fixed offsets (PEP 495): the caller's datetime lies beside an offset change of ITS zone - in the
+# repeated hour after a fall-back (fold=1: what datetime.now(zone) / fromtimestamp(t, zone) return during that hour), in
+# the first pass through that hour (fold=0), just after a spring-forward gap, just before either change.  The zone is
+# a harness/evutil.py SynthZone [UTC instant of the change, offset before, offset after (minutes), name]; spec["off"] is
+# then only the offset in force at the instant (for the counters).
+ZONE_KINDS = ["fold-second-pass", "fold-first-pass", "fold-end", "gap-after", "gap-before", "fold-half-hour", "fold-west"]
+
+
+def zoned(spec, kind):
+    t = spec["t"]
+    M = 60_000_000
+    s0 = t // 1_000_000 * 1_000_000      # offset changes happen on whole seconds (the ms floor of Event is taken on wall time)
+    z = {"fold-second-pass": [s0 - 10 * M, 120, 60, "fold"],       # 10 min into the repeated hour: fold=1
+         "fold-first-pass": [s0 + 10 * M, 120, 60, "fold"],        # same wall hour, first pass: fold=0
+         "fold-end": [s0 - 60 * M + 1_000_000, 120, 60, "fold"],   # the last second of the repeated hour
+         "gap-after": [s0, 60, 120, "gap"],                        # the first second after the gap
+         "gap-before": [s0 + 1_000_000, 60, 120, "gap"],           # the last second before it
+         "fold-half-hour": [s0 - 29 * M, 630, 600, "fold30"],      # Lord-Howe-like half-hour change
+         "fold-west": [s0 - 59 * M, -240, -300, "fold-west"]}[kind]
+    zone = SynthZone(*z)
+    off = zone.utcoffset((EPOCH + timedelta(microseconds=t)).astimezone(zone)) // timedelta(minutes=1)
+    return dict(spec, zone=z, off=off)
 
 
 def boundary_scenarios(rng):
@@ -172,6 +210,17 @@ def boundary_scenarios(rng):
             steps.append(("many", residues[pos:pos + n]))
             pos += n
         out.append((name, steps))
+    # PEP 495 zones: every kind at the two DST-switch anchors and two others, ms-aligned and with sub-ms parts; singly
+    # and in one bulk
+    zspecs = []
+    for i, a in enumerate((ANCHORS[6], ANCHORS[7], ANCHORS[1], 2 ** 51)):
+        for j, kind in enumerate(ZONE_KINDS):
+            for sub in (0, 999_999, 1, 500):
+                zspecs.append(zoned({"t": a + (i + j) * 1000 + sub, "off": 0, "d": DURS[(i + 3 * j) % len(DURS)],
+                                     "x": {"zone": kind}}, kind))
+    for i in range(0, len(zspecs), 28):
+        out.append(("zones-%d" % (i // 28), [("one", s) for s in zspecs[i:i + 28]]))
+    out.append(("zones-bulk", [("many", [copy.deepcopy(s) for s in zspecs[1::3]])]))
     # one bulk of each size into an otherwise empty bucket, rich data
     for n in (1, 101, 201):
         out.append(("bulk-%d-fresh" % n, [("many", [dict(rand_spec(rng), x=copy.deepcopy(DATA_CORPUS[i % len(DATA_CORPUS)]))
@@ -195,8 +244,8 @@ def random_scenario(rng, n):
 
 def mk_event(spec):
     from aw_core.models import Event
-    tz = timezone(timedelta(minutes=spec["off"]))
-    ts = (EPOCH + timedelta(microseconds=spec["t"])).astimezone(tz)
+    tz = SynthZone(*spec["zone"]) if spec.get("zone") else timezone(timedelta(minutes=spec["off"]))
+    ts = (EPOCH + timedelta(microseconds=spec["t"])).astimezone(tz)     # (SynthZone.fromutc sets fold in a repeated hour)
     return Event(timestamp=ts, duration=timedelta(microseconds=spec["d"]), data=copy.deepcopy(spec["x"]))
 
 
@@ -252,7 +301,17 @@ B2_EVENTS = [{"t": 1_500_000_000_000_000, "off": 0, "d": 1_000_000, "x": {"other
 
 
 def spec_json(s):
-    return {"instant_us": s["t"], "tz_offset_min": s["off"], "duration_us": s["d"], "data_json": canon(s["x"])}
+    j = {"instant_us": s["t"], "tz_offset_min": s["off"], "duration_us": s["d"], "data_json": canon(s["x"])}
+    if s.get("zone"):
+        j["zone"] = list(s["zone"])          # evutil.SynthZone(UTC instant of the change us, minutes before, after, name)
+        j["fold"] = mk_fold(s)
+    if ev.has_subclass(s["x"]):
+        j["data_classes"] = ev.tagged(s["x"])   # od / dd = OrderedDict / defaultdict, ls = list subclass, ss / is = str / int subclass
+    return j
+
+
+def mk_fold(s):
+    return (EPOCH + timedelta(microseconds=s["t"])).astimezone(SynthZone(*s["zone"])).fold
 
 
 def run_scenario(backend, steps, tmpdir, n, collect=True):
@@ -455,7 +514,8 @@ def own_pass(backend, tmpdir, n, datas):
             scramble(value)
             after = dump()
             if before != after:
-                fails.append((what, f"mutating {what} changed what later reads return", canon(x)))
+                fails.append((what, f"mutating {what} changed what later reads return", canon(x),
+                              ev.tagged(x) if ev.has_subclass(x) else None))
 
         for k, x in enumerate(datas):
             bid = "own%d" % k
@@ -496,7 +556,7 @@ def _worker(job):
     try:
         if kind == "scn":
             return job, run_scenario(backend, _WORK["scenarios"][n][1], tmpdir, n)
-        return job, own_pass(backend, tmpdir, n, _WORK["own_data"])
+        return job, own_pass(backend, tmpdir, n, _WORK["own_data"][n])
     finally:
         shutil.rmtree(tmpdir, ignore_errors=True)
 
@@ -534,8 +594,12 @@ def write_scenario_file(backend, name, steps, upto):
     return p
 
 
-def write_own_file(backend, data_json):
+def write_own_file(backend, data_json, classes=None):
     obj = {"backend": backend, "own_pass_data_json": data_json}
+    if classes is not None:
+        # the data is built from dict / list / str / int SUBCLASSES (harness/edgevals.py: od / dd = OrderedDict / defaultdict,
+        # ls = list subclass, ss / is = str / int subclass); harness.c01_replay rebuilds it with edgevals.untag
+        obj["own_pass_data_classes"] = classes
     d = os.path.join(common.VERIF, "replays", "C01")
     os.makedirs(d, exist_ok=True)
     import hashlib
@@ -577,7 +641,11 @@ def minimise(backend, steps, si, clause):
 
 def steps_from_file(obj):
     def spec(j):
-        return {"t": j["instant_us"], "off": j["tz_offset_min"], "d": j["duration_us"], "x": json.loads(j["data_json"])}
+        x = ev.untag(j["data_classes"]) if "data_classes" in j else json.loads(j["data_json"])
+        s = {"t": j["instant_us"], "off": j["tz_offset_min"], "d": j["duration_us"], "x": x}
+        if j.get("zone"):
+            s["zone"] = list(j["zone"])
+        return s
     from . import c01_hist
     return [c01_hist.step_unjson(k, a, spec) for k, a in obj["steps"]]
 
@@ -674,8 +742,11 @@ def main(argv=None):
     from . import c01_hist
     scenarios += c01_hist.history_corpus() + [c01_hist.random_history(ck.rng, i) for i in range(40 if quick else 2500)]
     _WORK["scenarios"] = scenarios
-    _WORK["own_data"] = [copy.deepcopy(x) for x in DATA_CORPUS if x] + [rand_data(ck.rng) for _ in range(4 if quick else 60)]
-    jobs = [("scn", be, n) for n in range(len(scenarios)) for be in sh.BACKENDS] + [("own", be, 0) for be in sh.BACKENDS]
+    own_data = [copy.deepcopy(x) for x in DATA_CORPUS if x] + [rand_data(ck.rng) for _ in range(4 if quick else 60)]
+    # (every step of own_pass dumps every bucket of its store: chunks of 10 data items, one store each)
+    _WORK["own_data"] = [own_data[i:i + 10] for i in range(0, len(own_data), 10)]
+    n_own = len(_WORK["own_data"])
+    jobs = [("scn", be, n) for n in range(len(scenarios)) for be in sh.BACKENDS] + [("own", be, k) for be in sh.BACKENDS for k in range(n_own)]
     done = run_jobs(jobs)
     results = [{be: done[("scn", be, n)] for be in sh.BACKENDS} for n in range(len(scenarios))]
 
@@ -719,13 +790,16 @@ def main(argv=None):
             ck.sample({"scenario": name, "first_events": [spec_json(a) for k, a in steps[:3] if k == "one"],
                        "sqlite_cells": r["sqlite"]["cells"][:3], "peewee_cells": r["peewee"]["cells"][:3]})
     for be in sh.BACKENDS:
-        for what, text, data in done[("own", be, 0)][:3]:
-            path = write_own_file(be, data)
+        own_fails = [f for k in range(n_own) for f in done[("own", be, k)]]
+        own_fails.sort(key=lambda f: len(f[2]))          # the smallest data item first
+        for what, text, data, classes in own_fails[:3]:
+            path = write_own_file(be, data, classes)
             ck.failing_input(f"C01:{be}:own:{what}", f"[{be}] {text}; data {data[:300]}",
-                             {"backend": be, "mutated": what, "data_file": path,
+                             {"backend": be, "mutated": what, "data_file": path, "data_classes": classes,
                               "how": "harness.c01.own_pass: create_bucket(data=x) / insert / get / metadata ..., scramble the object, re-read",
                               "rerun": f"VERIF_REPO={common.REPO} PYTHONPATH={common.REPO}:{common.VERIF} /venv/bin/python -m harness.c01_replay {path}"})
-        ck.count(f"{be}:own-pass-data-items", len(_WORK["own_data"]))
+        ck.count(f"{be}:own-pass-data-items", len(own_data))
+        ck.count(f"{be}:own-pass-data-items-with-subclass-containers", sum(1 for x in own_data if ev.has_subclass(x)))
 
     # --- correspondence with the store models
     if have_driver:
